@@ -437,6 +437,27 @@ impl Gen<'_> {
                 u.out.push(a);
                 u.out.push(b);
             }
+            98 => {
+                // a very long line with multi-byte characters around the
+                // offsets at which a reader might split it (1024, 2048, 4096)
+                let mb = "\u{e9}\u{e9}\u{3042}\u{1F600}\u{df}\u{3044}\u{e9}\u{1F600}\u{3042}\u{e9}";
+                let mut word = String::new();
+                for boundary in [1024usize, 2048, 4096] {
+                    if boundary > 1024 && self.rng.bool() {
+                        break;
+                    }
+                    // "echo " is 5 bytes long
+                    let target = boundary - 5 - self.rng.range(1, 12) as usize;
+                    while word.len() < target {
+                        word.push('a');
+                    }
+                    word.push_str(mb);
+                }
+                let mut l = format!("echo {word}");
+                self.maybe_tell(&mut l, &mut u, 0);
+                u.lines.push(l);
+                u.out.push(word);
+            }
             97 => {
                 let w = self.w();
                 let mut l = match self.rng.below(3) {
